@@ -1,23 +1,29 @@
 ---------------------------- MODULE GenFrame ----------------------------
 (* Case generator for C39.  A case is what goes over ONE connection (one pair of    *)
-(* framers, one zlib context): a prefix of well-formed header-bearing frames written *)
-(* by the real writer (they move the compression state), then one final shape --    *)
-(* written (rt) or laid out raw, possibly malformed.  Every item carries the Layer-P *)
-(* verdict p, the Layer-M prediction m, and ng (name comparison gray).              *)
-(* mode mc : exhaustive, MaxWarm small.   mode sim : TLC -simulate, longer prefixes. *)
+(* framers, one zlib context): a prefix of `want` well-formed header-bearing frames  *)
+(* written by the real writer (they move the compression state), then one final     *)
+(* shape -- written (rt) or laid out raw, possibly malformed.  Every item carries    *)
+(* the Layer-P verdict p, the Layer-M prediction m, and ng (name comparison gray).  *)
+(* mode mc : exhaustive over (prefix, final).   mode sim : TLC -simulate.           *)
+(* The case is printed from the dedicated single-successor step Fin.                *)
 EXTENDS FrameDefs, Json
 CONSTANTS MaxWarm, WarmK, WarmN, WarmV
-VARIABLES seq, fin
-gvars == <<seq, fin>>
+VARIABLES seq, want, last, fin
+gvars == <<seq, want, last, fin>>
 
 Item(s) == [s |-> s, p |-> PVerdict(s), m |-> MOutcome(s), ng |-> NameGray(s)]
 
 Warm == {s \in RtHdr : s.k \in WarmK /\ s.fl = 0 /\ s.np = 1 /\ s.n1 \in WarmN /\ s.v1 \in WarmV}
 
-GInit == seq = <<>> /\ fin = FALSE
-GNext == /\ ~fin
-         /\ \/ Len(seq) < MaxWarm /\ \E s \in Warm : seq' = Append(seq, Item(s)) /\ fin' = FALSE
-            \/ \E s \in Shapes : seq' = Append(seq, Item(s)) /\ fin' = TRUE
+GInit == seq = <<>> /\ want \in 0..MaxWarm /\ last = FALSE /\ fin = FALSE
+AddWarm == /\ ~last /\ Len(seq) < want
+           /\ \E s \in Warm : seq' = Append(seq, Item(s))
+           /\ UNCHANGED <<want, last, fin>>
+Final == /\ ~last /\ Len(seq) = want
+         /\ \E s \in Shapes : seq' = Append(seq, Item(s))
+         /\ last' = TRUE /\ UNCHANGED <<want, fin>>
+Fin == last /\ ~fin /\ fin' = TRUE /\ UNCHANGED <<seq, want, last>>
+GNext == AddWarm \/ Final \/ Fin
 
 Emit == fin => PrintT(ToJson([seq |-> seq]))
 =========================================================================
